@@ -33,11 +33,34 @@ import (
 // hide races from the detector. Each goroutine writes only into its own slots.
 
 type c19Item struct {
-	kind string
-	seed uint64
+	kind   string
+	seed   uint64
+	region int // >= 0: index of the item's own region in the shared arena
+}
+
+// c19Arena hands every cipher/MAC item its own region of ONE backing array:
+// regions are distinct and do not overlap, but they are adjacent, and a
+// region's spare capacity is the neighbour's memory. A call that writes even one
+// octet outside the slice it was given races with the neighbour's owner.
+const c19RegionSize = 2048
+
+// c19Place copies data into the item's region and returns the slice inside the
+// arena. Even regions hold their data at the END, odd regions at the START, and
+// regions r and r+1 belong to different goroutines, so the octet after an even
+// region's payload is the first octet of a payload another goroutine is using.
+func c19Place(sh *c19Shared, region int, data []byte) []byte {
+	base := region * c19RegionSize
+	if region%2 == 0 {
+		off := base + c19RegionSize - len(data)
+		copy(sh.arena[off:], data)
+		return sh.arena[off : base+c19RegionSize : len(sh.arena)]
+	}
+	copy(sh.arena[base:], data)
+	return sh.arena[base : base+len(data) : len(sh.arena)]
 }
 
 type c19Shared struct {
+	arena []byte
 	keys [3][16]byte // a small pool of key VALUES: distinct goroutines legitimately use equal keys
 	sp   *refcodec.Spec
 	msgs []*nas.Message // decoded messages shared read-only by all goroutines
@@ -91,12 +114,25 @@ func c19Run(sh *c19Shared, it c19Item) (res uint64) {
 		// keys, counts and bearers come from small pools: equal parameter VALUES on
 		// different goroutines are ordinary use (uplink/downlink of one context)
 		key := sh.keys[r.Intn(3)]
-		buf := r.Bytes(r.Range(0, 200))
+		n := r.Range(0, 200)
+		if it.region >= 0 {
+			n = 8*r.Range(1, 200) + r.Range(1, 7) // fills the region to an odd length: the next octets are the neighbour's
+			if n > c19RegionSize {
+				n = c19RegionSize - 3
+			}
+		}
+		buf := r.Bytes(n)
+		if it.region >= 0 {
+			buf = c19Place(sh, it.region, buf)
+		}
 		err := security.NASEncrypt(it.kind[6]-'0', key, uint32(r.Intn(4)), uint8(r.Intn(2)), uint8(r.Intn(2)), buf)
 		return h64(buf) ^ hs(fmt.Sprint(err))
 	case "mac1", "mac2", "mac3":
 		key := sh.keys[r.Intn(3)]
 		msg := r.Bytes(r.Range(1, 1600))
+		if it.region >= 0 {
+			msg = c19Place(sh, it.region, msg)
+		}
 		mac, err := security.NASMacCalculate(it.kind[3]-'0', key, uint32(r.Intn(4)), uint8(r.Intn(2)), uint8(r.Intn(2)), msg)
 		return h64(mac) ^ h64(msg) ^ hs(fmt.Sprint(err))
 	case "accessor":
@@ -312,12 +348,24 @@ func c19Round(c *core.Ctx, k *core.Case) {
 	sh := c19BuildShared(sp, seed)
 	// item list, pre-partitioned: goroutine g owns items[g]
 	items := make([][]c19Item, G)
+	nRegions := 0
+	perG := make([]int, G)
 	r := prng.New(seed ^ 0x9e37)
 	for g := 0; g < G; g++ {
 		for i := 0; i < per; i++ {
-			items[g] = append(items[g], c19Item{kind: c19Kinds[(g+i)%len(c19Kinds)], seed: r.Uint64()})
+			it := c19Item{kind: c19Kinds[(g+i)%len(c19Kinds)], seed: r.Uint64(), region: -1}
+			if strings.HasPrefix(it.kind, "cipher") || strings.HasPrefix(it.kind, "mac") {
+				// the j-th arena item of goroutine g gets region j*G+g: neighbours belong to other goroutines
+				it.region = perG[g]*G + g
+				perG[g]++
+				if it.region+1 > nRegions {
+					nRegions = it.region + 1
+				}
+			}
+			items[g] = append(items[g], it)
 		}
 	}
+	sh.arena = make([]byte, (nRegions+1)*c19RegionSize)
 	// phase A: sequential results
 	seq := make([][]uint64, G)
 	for g := range items {
@@ -417,7 +465,7 @@ func c19Item1(c *core.Ctx, k *core.Case) {
 	}
 	seed := uint64(k.I[0])<<1 | uint64(k.I[1])
 	sh := c19BuildShared(sp, 1)
-	it := c19Item{kind: k.S[0], seed: seed}
+	it := c19Item{kind: k.S[0], seed: seed, region: -1}
 	want := c19Run(sh, it)
 	res := make([]uint64, 8)
 	var wg sync.WaitGroup
